@@ -408,7 +408,16 @@ func (d *HeaderFooterDetector) findRepeatingPatterns(candidates []candidate, pag
 		minOccurrences = 2
 	}
 
-	for normalizedText, textGroup := range groups {
+	// Visit the groups in a fixed order: regions of equal confidence keep the
+	// order in which they are found
+	normalizedTexts := make([]string, 0, len(groups))
+	for normalizedText := range groups {
+		normalizedTexts = append(normalizedTexts, normalizedText)
+	}
+	sort.Strings(normalizedTexts)
+
+	for _, normalizedText := range normalizedTexts {
+		textGroup := groups[normalizedText]
 		// Skip very short text that isn't a page number
 		// Single letters/characters are likely fragments of larger text
 		if len(normalizedText) <= 2 && !isPageNumberPattern(normalizedText) {
